@@ -253,6 +253,9 @@ func replacement(repl string, old interface{}) (interface{}, bool) {
 		return "/other/arr/-1", true
 	case "huge_index":
 		return "/other/arr/99999999999999999999", true
+	case "large_index":
+		// fits an int: a library that sizes an array by a destination index allocates 800 GB
+		return "/other/arr/99999999999", true
 	case "pointer_into_own_source":
 		return "/other/arr/0/../../other", true
 	case "non_string_key_value":
